@@ -26,6 +26,7 @@ SimAlloc g_alloc;
 SimClock g_clock;
 SimFs g_fs;
 void (*g_after_mmap)() = nullptr;
+bool (*g_fail_mmap_hook)() = nullptr;
 SimSyncHooks g_sync = {0, 0, 0};
 size_t g_arena_initial_size = 0;
 int64_t g_arena_creates = 0;
@@ -266,7 +267,8 @@ int sim_open(const char* path, int flags, ...) {
 int sim_close(int fd) {
   if (g_sync.yield) g_sync.yield(YK_FILE, __builtin_return_address(0));
   __atomic_add_fetch(&g_fs.closes, 1, __ATOMIC_SEQ_CST);
-  pthread_mutex_lock(&g_fs_mu); if (g_fds) { g_fds->erase(fd); g_fs.open_fds = g_fds->size(); } pthread_mutex_unlock(&g_fs_mu);
+  pthread_mutex_lock(&g_fs_mu); bool mine = g_fds && g_fds->erase(fd) > 0; if (g_fds) g_fs.open_fds = g_fds->size(); if (!mine) g_fs.foreign_closes++; pthread_mutex_unlock(&g_fs_mu);
+  if (!mine && g_fs.refuse_foreign_close) { errno = EBADF; return -1; }
   return close(fd);
 }
 int sim_fstat(int fd, struct stat* st) {
@@ -282,7 +284,7 @@ int sim_fstatfs(int fd, struct statfs* st) {
 void* sim_mmap(void* addr, size_t len, int prot, int flags, int fd, off_t off) {
   if (g_sync.yield) g_sync.yield(YK_FILE, __builtin_return_address(0));
   int n = __atomic_add_fetch(&g_fs.mmaps, 1, __ATOMIC_SEQ_CST);
-  if (n == g_fs.fail_mmap_at) { g_fs.faults_fired++; errno = ENOMEM; return MAP_FAILED; }
+  if (n == g_fs.fail_mmap_at || (g_fail_mmap_hook && g_fail_mmap_hook())) { g_fs.faults_fired++; errno = ENOMEM; return MAP_FAILED; }
   void* p = mmap(addr, len, prot, flags, fd, off);
   if (p != MAP_FAILED) { pthread_mutex_lock(&g_fs_mu); if (!g_maps) g_maps = new std::set<void*>(); g_maps->insert(p); g_fs.live_maps = g_maps->size(); pthread_mutex_unlock(&g_fs_mu); if (g_after_mmap) g_after_mmap(); }
   return p;
